@@ -80,9 +80,19 @@ def floatTrunc (x : Float) : Option Int :=
 def fcmul (x y : Float × Float) : Float × Float :=
   (x.1 * y.1 - x.2 * y.2, x.1 * y.2 + x.2 * y.1)
 
+/-- complex reciprocal by Smith's method, as NumPy computes it: no intermediate `c² + d²`, which
+underflows for |z| below 1e-154 and overflows above 1e154 -/
 def fcinv (x : Float × Float) : Float × Float :=
-  let d := x.1 * x.1 + x.2 * x.2
-  (x.1 / d, -x.2 / d)
+  let c := x.1
+  let d := x.2
+  if c.abs ≥ d.abs then
+    let r := d / c
+    let den := c + d * r
+    (1.0 / den, -r / den)
+  else
+    let r := c / d
+    let den := c * r + d
+    (r / den, -1.0 / den)
 
 def fcpowNat (x : Float × Float) : Nat → Float × Float
   | 0 => (1.0, 0.0)
